@@ -21,6 +21,8 @@ func main() {
 	switch o.Prop {
 	case "C19":
 		mainBurn(o)
+	case "C18":
+		mainMint(o)
 	default:
 		fmt.Fprintln(os.Stderr, "unknown -prop", o.Prop)
 		os.Exit(2)
